@@ -116,7 +116,11 @@ impl Mempool {
             public_key = wallet.public_key;
             transaction.generate(&public_key, 0, 0);
 
-            tx_valid = transaction.validate(&blockchain.utxoset, blockchain, true);
+            // issuance transactions are only admitted while the genesis block is being assembled
+            let admissible_type = !transaction.is_consensus_generated_type()
+                || (transaction.is_issuance_transaction() && blockchain.blocks.is_empty());
+            tx_valid =
+                admissible_type && transaction.validate(&blockchain.utxoset, blockchain, true);
         }
 
         // validate
